@@ -5,6 +5,13 @@ Differential exploration: 4 model skeletons x ALL injective renamings of their <
 parameters are met in every order) x status assignments {free, free with distinct bounds, fixed} x
 all 2^k partial name->value dictionaries.  Everything the library reports is mapped back through the
 bijection and must equal what the plain-Python reference computes for the original skeleton.
+
+Values reported under names / read back by name: the file of saved iterations (written by every evaluation with derivatives of
+a model that saves its iterations - histories of 2 or 3 points on one object - and read by the next estimate(): hand-written
+files = every subset of names x every order of the lines, and round trips between models meeting the parameters in different
+orders), report_array, standard errors and variance-covariance tables against the reference's own Hessian / BHHH, draws for
+sensitivity analysis requested for every ordered selection of names (normal draws with an owned random source, bootstrap
+estimates with an owned resampler).
 """
 from __future__ import annotations
 
@@ -20,10 +27,15 @@ TECHNIQUE = 'bounded exhaustive enumeration of renamings x term orders x status 
 RULE = ('one case = one (skeleton, renaming, term order, status assignment) model on which log likelihood, gradient-by-name, bounds, '
         'simulation with full and partial dictionaries are compared; estimation cases = one estimate() per (skeleton, renaming, status) of the '
         'estimation family; duplicate cases = one per (kind pair, entry point). Non-trivial = the renaming is not the identity or the term order '
-        'is not the canonical one; distinct = distinct tuples.')
+        'is not the canonical one; distinct = distinct tuples. Written values: one case per (model, prefix of a sequence of evaluated points) '
+        'with the saved-iterations file read back; iterfile cases = one estimate() per (renaming, status, term order, subset of names, order of '
+        'the lines of a hand-written file) and one per ordered pair of term orders (round trip).')
 ASSUMPTIONS = [
     'estimates compared up to optimiser tolerance (1e-4 relative) on strictly concave problems with a unique interior optimum',
     'a name->value dictionary that names a FIXED parameter does not change it (statement: fixed parameters keep exactly the value they were given)',
+    'the sources of randomness behind the draws for sensitivity analysis are owned: numpy.random.multivariate_normal answers mean + (k+1)/2 for '
+    'the k-th draw, Database.sample_with_replacement answers a menu of 4 row multisets in turn; statistics compared at 5e-3 relative',
+    'which of the evaluated points the saved-iterations file keeps is not checked (only that it is one of them, name by name)',
 ]
 ANCHOR_FILES = ['src/biogeme/expressions/idmanager.py', 'src/biogeme/expressions/beta_parameters.py',
                 'src/biogeme/expressions/base_expressions.py', 'src/biogeme/biogeme.py', 'src/biogeme/results.py']
@@ -369,7 +381,11 @@ def _written_values(sk, mapping, inv, variant, spec, db, free_orig, tier, bad, r
     import numpy as np
     from vf.engine import make_biogeme
     pts = [POINT, ORIG, THIRD]
-    seqs = list(itertools.permutations(range(3))) if tier == 'thorough' else [(0, 1), (1, 0)]
+    # thorough: every order of the three points for the status assignments of the quick tier, both orders of two points for
+    # the other assignments
+    full = tier == 'thorough' and tuple('fixed' if o not in free_orig else 'bounded' if spec[mapping[o]][1] is not None else 'free'
+                                        for o in ('p0', 'p1', 'p2')) in status_assignments('quick')
+    seqs = list(itertools.permutations(range(3))) if full else [(0, 1), (1, 0)]
     for seq in seqs:
         try:
             with _scratch():
